@@ -155,6 +155,8 @@ type Scenario struct {
 	// Malformed options interleaved at position Pos of the option list
 	Malformed string `json:"malformed,omitempty"`
 	MalPos    int    `json:"malpos,omitempty"`
+	// Affinity selects the C07 clause ("input" | "conv")
+	Affinity string `json:"affinity,omitempty"`
 	// ArgOrder permutes the option list (nil = inputs then converters)
 	ArgOrder []int `json:"argorder,omitempty"`
 }
@@ -183,6 +185,9 @@ func (s Scenario) String() string {
 	}
 	if s.ArgOrder != nil {
 		r += fmt.Sprintf(" argorder=%v", s.ArgOrder)
+	}
+	if s.Affinity != "" {
+		r += " affinity=" + s.Affinity
 	}
 	return r
 }
